@@ -82,20 +82,18 @@ func resolve(path string, query bsonkit.Doc, doc bson.D, arrayFilters bsonkit.Li
 		return nil
 	}
 
-	// verify that at least one supplied array filter binds the identifier
-	bound := false
+	// collect the supplied array filters that bind the identifier, filters
+	// of other identifiers must not be matched against the items
+	var bound bsonkit.List
 	for _, filter := range arrayFilters {
 		for _, e := range *filter {
 			if e.Key == identifier || strings.HasPrefix(e.Key, identifier+".") {
-				bound = true
+				bound = append(bound, filter)
 				break
 			}
 		}
-		if bound {
-			break
-		}
 	}
-	if !bound {
+	if len(bound) == 0 {
 		return fmt.Errorf("no array filter found for identifier %q", identifier)
 	}
 
@@ -109,7 +107,7 @@ func resolve(path string, query bsonkit.Doc, doc bson.D, arrayFilters bsonkit.Li
 	for i, item := range array {
 		// match item against provided array filters
 		matched := false
-		for _, filter := range arrayFilters {
+		for _, filter := range bound {
 			// match item
 			ok, err := Match(&bson.D{
 				bson.E{Key: identifier, Value: item},
